@@ -214,3 +214,8 @@ def run(ctx):
     # callers: RowWriter start / reply / field list
     callers = [(b.path, bb) for b, bb, t in prog.callers_of(r"^writers::(write_column_definitions|column_definitions|write_prepare_ok)$") if "::tests::" not in b.path]
     ctx.floor("C09.coldef-layout", "call sites of the metadata writers", len(callers), 6)
+
+    # every outbound clause of this property presupposes a faithful framing layer (one transport write site that sends the
+    # whole pending packet, in order, with a correct header): C04's framing rules are evaluated here as well
+    import rules.C04 as C04
+    C04.run(ctx, configs=["tls"])
